@@ -74,9 +74,6 @@ func runBCE(repo string, c Config) ([]bceSite, error) {
 // Keyed by function id + expression text; the entry only applies while the structural side
 // conditions named in the recognisers below still hold.
 var bceInvariants = map[string]string{
-	"(*gtree.jsonNode).getChild | jn.Children[i]": "getChild(i) is called only by toFormattedNode right after setChild for the same loop index i (SIB-4 checks that pairing), so len(Children) == i+1",
-	"(*gtree.tomlNode).getChild | tn.Children[i]": "as for jsonNode.getChild",
-	"(*gtree.yamlNode).getChild | yn.Children[i]": "as for jsonNode.getChild",
 }
 
 func ruleNIL4(w *World) []Ob {
@@ -134,6 +131,19 @@ func ruleNIL4(w *World) []Ob {
 			if why, ok := dischargeIndex(p, pk, expr, fd, path); ok {
 				l.ok(fid, construct, pos, why, true, "bce")
 				continue
+			}
+			var lb token.Pos
+			switch e := expr.(type) {
+			case *ast.IndexExpr:
+				lb = e.Lbrack
+			case *ast.SliceExpr:
+				lb = e.Lbrack
+			}
+			if in := ssaIndexAt(p, lb); in != nil {
+				if why, ok := dischargeIndexSSA(p, in); ok {
+					l.ok(fid, construct, pos, why, true, "bce")
+					continue
+				}
 			}
 			if why, ok := bceInvariants[fid+" | "+text]; ok {
 				l.ok(fid, construct, pos, "invariant (named): "+why, true, "bce")
